@@ -389,6 +389,37 @@ func r17_3(c *Ctx, rule string, lit *ssa.Function) {
 		c.R.Check(len(ex.Run()) == 0, rule, fmt.Sprintf("%s/pax-record#%d/before-header", c.name(lit), n), c.pos(mu), "records are added before the header is written", "PAX records are added after WriteHeader")
 	})
 	c.R.Floor(rule, "PAX record assignments", n, 1)
+	// every one of them: no iteration of the loop over stat.Xattrs comes back
+	// to the iterator without having stored a record (an attribute with an
+	// empty value - a whiteout or opaque marker - is an attribute)
+	eng.Instrs(lit, func(in ssa.Instruction) {
+		nx, ok := in.(*ssa.Next)
+		if !ok {
+			return
+		}
+		rg, ok := nx.Iter.(*ssa.Range)
+		if !ok || !isFieldLoad(rg.X, "types.Stat.Xattrs") {
+			return
+		}
+		ex := c.explorer(lit)
+		ex.From = nx
+		ex.Barrier = func(i2 ssa.Instruction, st *eng.State) bool {
+			mu, isMU := i2.(*ssa.MapUpdate)
+			return isMU && isFieldLoad(mu.Map, "archive/tar.Header.PAXRecords")
+		}
+		ex.Target = func(i2 ssa.Instruction, st *eng.State) bool { return i2 == ssa.Instruction(nx) }
+		ex.StopAtTarget = true
+		hits := ex.Run()
+		con := c.name(lit) + "/every-xattr-recorded"
+		switch {
+		case ex.Exhausted:
+			c.R.Undecided(rule, con, c.pos(nx), "state limit")
+		case len(hits) > 0:
+			c.R.Fail(rule, con, c.pos(nx), "an iteration of the loop over stat.Xattrs can go on to the next attribute without storing a PAX record (attributes with an empty value are passed over?): the member lacks an attribute the view has; path "+eng.BlockTrace(lit, hits[0].Trace))
+		default:
+			c.R.OK(rule, con, c.pos(nx), "every iteration of the loop over stat.Xattrs stores a record")
+		}
+	})
 	// no header is written before the stat's xattrs were looked at
 	readsXattrs := func(in ssa.Instruction) bool {
 		v, ok := in.(ssa.Value)
